@@ -109,3 +109,176 @@ Lemma add_digits_nonempty a b : a <> [] -> b <> [] -> add_digits a b <> [].
 Proof.
   intros Hna Hnb. unfold add_digits. destruct (hi a <? hi b)%nat; apply add_digits_ord_nonempty; assumption.
 Qed.
+
+(** ** compare_abs *)
+Lemma cmp_le_spec : forall a b, words a -> words b -> length a = length b ->
+  (cmp_le a b > 0 <-> val a > val b) /\ (cmp_le a b < 0 <-> val a < val b) /\ -1 <= cmp_le a b <= 1.
+Proof.
+  induction a as [|x a IH]; intros b Ha Hb Hl; destruct b as [|y b]; cbn [length] in Hl; try lia.
+  - cbn. lia.
+  - inversion Ha as [|? ? Hx Ha']; subst. inversion Hb as [|? ? Hy Hb']; subst.
+    specialize (IH b Ha' Hb' ltac:(lia)). destruct IH as (Hgt & Hlt & Hr).
+    cbn [cmp_le val]. unfold isword, B in *.
+    destruct (Z.eqb_spec (cmp_le a b) 0) as [Hc|Hc].
+    + assert (val a = val b) as Hv by lia. rewrite Hv.
+      destruct (Z.gtb_spec x y); [lia|]. destruct (Z.ltb_spec x y); lia.
+    + assert (cmp_le a b = 1 \/ cmp_le a b = -1) as [Hc1|Hc1] by lia; rewrite Hc1 in *; lia.
+Qed.
+
+Lemma compare_abs_spec a b : words a -> words b -> a <> [] -> b <> [] ->
+  (compare_abs a b > 0 <-> val a > val b) /\ (compare_abs a b < 0 <-> val a < val b).
+Proof.
+  intros Ha Hb Hna Hnb. unfold compare_abs.
+  pose proof (val_lt_pow_hi a Ha) as Hua. pose proof (val_lt_pow_hi b Hb) as Hub.
+  destruct (Nat.eqb_spec (hi a) (hi b)) as [He|Hne]; cbn [negb].
+  - pose proof (cmp_le_spec (firstn (hi a) a) (firstn (hi a) b)
+                  (words_firstn _ _ Ha) (words_firstn _ _ Hb)) as H.
+    rewrite firstn_hi_length in H by assumption. rewrite He in H at 2.
+    rewrite firstn_hi_length in H by assumption. specialize (H He).
+    rewrite firstn_strip_val in H by assumption. rewrite He in H.
+    rewrite firstn_strip_val in H by assumption. rewrite He. tauto.
+  - assert (hi a < hi b \/ hi b < hi a)%nat as [Hlt|Hlt] by lia.
+    + pose proof (val_ge_pow_hi b Hb ltac:(pose proof (hi_ge1 a); lia)) as Hl.
+      assert (B ^ Z.of_nat (hi a) <= B ^ Z.of_nat (hi b - 1)) by (apply Z.pow_le_mono_r; [reflexivity|lia]).
+      lia.
+    + pose proof (val_ge_pow_hi a Ha ltac:(pose proof (hi_ge1 b); lia)) as Hl.
+      assert (B ^ Z.of_nat (hi b) <= B ^ Z.of_nat (hi a - 1)) by (apply Z.pow_le_mono_r; [reflexivity|lia]).
+      lia.
+Qed.
+
+(** ** sub_loop *)
+Lemma sub_loop_spec : forall a b borrow r bf,
+  words a -> words b -> (length b <= length a)%nat -> 0 <= borrow <= 1 ->
+  sub_loop a b borrow = (r, bf) ->
+  val r - bf * B ^ Z.of_nat (length a) = val a - val b - borrow
+  /\ length r = length a /\ words r /\ 0 <= bf <= 1.
+Proof.
+  induction a as [|x a IH]; intros b borrow r bf Ha Hb Hlen Hc H.
+  - destruct b; cbn [length] in Hlen; [|lia]. cbn in H. inversion H; subst.
+    cbn. repeat split; try lia. constructor.
+  - inversion Ha as [|? ? Hx Ha']; subst.
+    destruct b as [|y b].
+    + cbn [sub_loop] in H. destruct (Z.eqb_spec borrow 0) as [->|Hne].
+      * inversion H; subst. cbn [val]. repeat split; try lia. exact Ha.
+      * destruct (sub_loop a [] (if x =? 0 then 1 else 0)) as [r' bf'] eqn:E.
+        inversion H; subst. clear H.
+        apply IH in E; [|assumption|constructor|cbn;lia|destruct (x =? 0); lia].
+        destruct E as (Hv & Hl & Hw & Hcf).
+        cbn [val length]. rewrite Nat2Z.inj_succ, Z.pow_succ_r by lia.
+        repeat split; [|lia|constructor; [apply isword_mod|exact Hw]|lia|lia].
+        cbn [val] in Hv. unfold isword in Hx. unfold B in *.
+        destruct (Z.eqb_spec x 0); nia.
+    + inversion Hb as [|? ? Hy Hb']; subst. cbn [sub_loop] in H.
+      destruct ((x >? y) || ((x =? y) && (borrow =? 0))) eqn:Hcond.
+      * destruct (sub_loop a b 0) as [r' bf'] eqn:E. inversion H; subst; clear H.
+        apply IH in E; [|assumption|assumption|cbn [length] in Hlen; lia|lia].
+        destruct E as (Hv & Hl & Hw & Hcf).
+        assert ((x - y - borrow) mod B = x - y - borrow) as Hstep.
+        { unfold isword, B in *. lia. }
+        cbn [val length]. rewrite Nat2Z.inj_succ, Z.pow_succ_r by lia.
+        repeat split; [|lia|constructor; [apply isword_mod|exact Hw]|lia|lia].
+        rewrite Hstep. nia.
+      * destruct (sub_loop a b 1) as [r' bf'] eqn:E. inversion H; subst; clear H.
+        apply IH in E; [|assumption|assumption|cbn [length] in Hlen; lia|lia].
+        destruct E as (Hv & Hl & Hw & Hcf).
+        assert ((((WMAX - y + 1) mod B - borrow) mod B + x) mod B = x - y - borrow + B) as Hstep.
+        { unfold isword, WMAX, B in *. lia. }
+        cbn [val length]. rewrite Nat2Z.inj_succ, Z.pow_succ_r by lia.
+        repeat split; [|lia|constructor; [apply isword_mod|exact Hw]|lia|lia].
+        rewrite Hstep. nia.
+Qed.
+
+Lemma sub_digits_ord_spec a b :
+  words a -> words b -> a <> [] -> b <> [] -> (hi b <= hi a)%nat -> val b <= val a ->
+  val (sub_digits_ord a b) = val a - val b /\ words (sub_digits_ord a b) /\ sub_digits_ord a b <> [].
+Proof.
+  intros Ha Hb Hna Hnb Hh Hle. unfold sub_digits_ord.
+  destruct (sub_loop (firstn (hi a) a) (firstn (hi b) b) 0) as [r bf] eqn:E. cbn [fst].
+  apply sub_loop_spec in E;
+    [|apply words_firstn; assumption|apply words_firstn; assumption
+     |rewrite !firstn_hi_length by assumption; exact Hh|lia].
+  destruct E as (Hv & Hl & Hw & Hbf).
+  rewrite !firstn_strip_val in Hv by assumption.
+  rewrite firstn_hi_length in * by assumption.
+  pose proof (val_bound r Hw) as Hub. rewrite Hl in Hub.
+  pose proof (val_nonneg r Hw) as Hlb.
+  assert (bf = 0) as -> by nia.
+  rewrite val_app, Hl, skipn_hi_val by assumption.
+  split; [lia|]. split; [apply words_app; [exact Hw|apply words_skipn; exact Ha]|].
+  intros Hnil. apply app_eq_nil in Hnil. destruct Hnil as [-> _]. cbn [length] in Hl.
+  pose proof (hi_ge1 a). lia.
+Qed.
+
+Lemma sub_digits_spec a b :
+  words a -> words b -> a <> [] -> b <> [] ->
+  val (sub_digits a b) = Z.abs (val a - val b) /\ words (sub_digits a b) /\ sub_digits a b <> [].
+Proof.
+  intros Ha Hb Hna Hnb. unfold sub_digits.
+  destruct (compare_abs_spec a b Ha Hb Hna Hnb) as [Hgt Hlt].
+  assert (Hcmp : hi a <> hi b -> compare_abs a b = Z.of_nat (hi a) - Z.of_nat (hi b)).
+  { intros Hne. unfold compare_abs. destruct (Nat.eqb_spec (hi a) (hi b)); [contradiction|reflexivity]. }
+  destruct ((hi a <? hi b)%nat || ((hi a =? hi b)%nat && (compare_abs a b <? 0))) eqn:Hc.
+  - assert (val a < val b /\ (hi a <= hi b)%nat) as [Hv Hh].
+    { destruct (Nat.ltb_spec (hi a) (hi b)) as [Hl|Hl].
+      - specialize (Hcmp ltac:(lia)). lia.
+      - cbn [orb] in Hc. apply andb_prop in Hc. destruct Hc as [He Hn].
+        apply Nat.eqb_eq in He. apply Z.ltb_lt in Hn. lia. }
+    destruct (sub_digits_ord_spec b a Hb Ha Hnb Hna Hh ltac:(lia)) as (H1 & H2 & H3).
+    split; [lia|]. split; assumption.
+  - assert (val b <= val a /\ (hi b <= hi a)%nat) as [Hv Hh].
+    { apply orb_false_elim in Hc. destruct Hc as [Hl Hc]. apply Nat.ltb_ge in Hl.
+      destruct (Nat.eqb_spec (hi a) (hi b)) as [He|Hne].
+      - cbn [andb] in Hc. apply Z.ltb_ge in Hc. lia.
+      - specialize (Hcmp Hne). lia. }
+    destruct (sub_digits_ord_spec a b Ha Hb Hna Hnb Hh Hv) as (H1 & H2 & H3).
+    split; [lia|]. split; assumption.
+Qed.
+
+(** ** signed layer: sexp_bignum_add / sexp_bignum_sub *)
+Definition wf_big (x : big) : Prop := (fst x = 1 \/ fst x = -1) /\ words (snd x) /\ snd x <> [].
+
+Lemma bignum_add_spec x y : wf_big x -> wf_big y ->
+  bval (bignum_add x y) = bval x + bval y /\ wf_big (bignum_add x y).
+Proof.
+  destruct x as [sa a], y as [sb b]. unfold wf_big, bval. cbn [fst snd].
+  intros (Hsa & Ha & Hna) (Hsb & Hb & Hnb). unfold bignum_add.
+  destruct (compare_abs_spec a b Ha Hb Hna Hnb) as [Hgt Hlt].
+  destruct (Z.eqb_spec sa sb) as [->|Hne]; cbn [fst snd].
+  - destruct (add_digits_spec a b Ha Hb Hna Hnb) as [Hv Hw]. rewrite Hv.
+    split; [ring|]. split; [assumption|]. split; [assumption|apply add_digits_nonempty; assumption].
+  - destruct (sub_digits_spec a b Ha Hb Hna Hnb) as (Hv & Hw & Hn). rewrite Hv.
+    destruct (Z.geb_spec (compare_abs a b) 0) as [Hc|Hc].
+    + split; [|tauto]. destruct Hsa as [-> | ->], Hsb as [-> | ->]; lia.
+    + split; [|tauto]. destruct Hsa as [-> | ->], Hsb as [-> | ->]; lia.
+Qed.
+
+Lemma bignum_sub_spec x y : wf_big x -> wf_big y ->
+  bval (bignum_sub x y) = bval x - bval y /\ wf_big (bignum_sub x y).
+Proof.
+  destruct x as [sa a], y as [sb b]. unfold wf_big, bval. cbn [fst snd].
+  intros (Hsa & Ha & Hna) (Hsb & Hb & Hnb). unfold bignum_sub.
+  destruct (compare_abs_spec a b Ha Hb Hna Hnb) as [Hgt Hlt].
+  destruct (Z.eqb_spec sa sb) as [->|Hne]; cbn [fst snd].
+  - destruct (sub_digits_spec a b Ha Hb Hna Hnb) as (Hv & Hw & Hn). rewrite Hv.
+    destruct (Z.geb_spec (compare_abs a b) 0) as [Hc|Hc].
+    + split; [|tauto]. destruct Hsb as [-> | ->]; lia.
+    + split; [|split; [|tauto]]; destruct Hsb as [-> | ->]; lia.
+  - destruct (add_digits_spec a b Ha Hb Hna Hnb) as [Hv Hw]. rewrite Hv.
+    split; [destruct Hsa as [-> | ->], Hsb as [-> | ->]; lia|].
+    split; [assumption|]. split; [assumption|apply add_digits_nonempty; assumption].
+Qed.
+
+(** non-vacuity: concrete operands with a carry across an all-ones word, a borrow across a zero
+    word, spare high zero words and both sign combinations *)
+Example add_digits_example :
+  add_digits [WMAX; WMAX; 0] [1] = [0; 0; 1] /\ val [0;0;1] = val [WMAX; WMAX; 0] + val [1].
+Proof. vm_compute. split; reflexivity. Qed.
+Example sub_digits_example :
+  sub_digits [1; 0] [0; 0; 1; 0] = [WMAX; WMAX; 0; 0].
+Proof. vm_compute. reflexivity. Qed.
+Example bignum_add_example :
+  bignum_add (1, [5; 0; 1]) (-1, [7; 0; 1; 0]) = (-1, [2; 0; 0; 0]).
+Proof. vm_compute. reflexivity. Qed.
+Example bignum_sub_example :
+  bignum_sub (-1, [0; 1]) (-1, [1; 0; 0]) = (-1, [WMAX; 0]).
+Proof. vm_compute. reflexivity. Qed.
